@@ -442,6 +442,7 @@ func corruptions(tok string, ids []string) []string {
 
 func main() {
 	h := hx.New("C15")
+	h.Seq("big-items", bigItems)
 	h.Seq("pages", func(s *hx.Seq) {
 		var rc pcase
 		byName := map[string]lister{}
